@@ -41,6 +41,14 @@ type live struct {
 	apxL int
 	tag  byte
 	poff int // offset margin this frame was built / parsed with
+	// unpooled: parsed from a buffer the caller owns (no pooled slice): the frame
+	// never owns that buffer, whatever happens to the frame later.
+	unpooled bool
+}
+
+// plainBuf is a caller-owned buffer frames were parsed from, with its expected content.
+type plainBuf struct {
+	buf, want []byte
 }
 
 type opKind int
@@ -118,6 +126,7 @@ type ctx struct {
 	tagCtr   byte
 	reused   int
 	released map[*byte]bool // first byte address of released pooled slices
+	plain    []plainBuf
 	viol     []kit.Violation
 }
 
@@ -135,8 +144,24 @@ func wireOf(f frame.Frame) []byte {
 
 // checkAll compares every live frame with its shadow.
 func (c *ctx) checkAll(after op) {
+	for i, pb := range c.plain {
+		if !bytes.Equal(pb.buf, pb.want) {
+			c.bad("caller-buffer-changed", fmt.Sprintf("caller-owned buffer %d, from which a frame was parsed without a pooled slice, changed after %s (first diff %d of %d bytes): the frame took ownership of memory it was only lent", i, after, firstDiff(pb.buf, pb.want), len(pb.buf)))
+			copy(pb.buf, pb.want)
+		}
+	}
 	for idx, l := range c.lives {
 		w := wireOf(l.f)
+		if w == nil && l.unpooled {
+			// no pooled slice: compare the parsed parts.
+			sw := l.wire[49 : 49+l.swL]
+			msg := l.wire[49+l.swL+2 : 49+l.swL+2+l.msgL]
+			apx := l.wire[len(l.wire)-l.apxL:]
+			if !bytes.Equal(l.f.SwitchBlock(), sw) || !bytes.Equal(l.f.MessageData(), msg) || !bytes.Equal(l.f.AppendixData(), apx) || l.f.SrcIP() != l.src || l.f.DstIP() != l.dst || l.f.MessageType() != l.mt {
+				c.bad("unpooled-frame-changed", fmt.Sprintf("live frame %d (parsed from a caller-owned buffer) no longer has its expected parts after %s", idx, after))
+			}
+			continue
+		}
 		if !bytes.Equal(w, l.wire) {
 			c.bad("frame-changed-by-"+[]string{"new", "parse", "clone", "reply", "setapx", "mutate", "setlink", "release", "parsebad"}[after.kind],
 				fmt.Sprintf("live frame %d no longer has its expected bytes after %s (len %d vs %d, first diff %d)", idx, after, len(w), len(l.wire), firstDiff(w, l.wire)))
@@ -235,6 +260,30 @@ func (c *ctx) apply(o op) (ok bool) {
 			}
 			src = c.lives[o.i]
 		}
+		if o.arg == 3 {
+			// parsed from a buffer the CALLER owns (no pooled slice): the buffer holds the
+			// frame's bytes twice, back to back (a receive buffer with two frames in it);
+			// nothing that happens to the frame may ever write to that buffer.
+			if len(c.lives) >= 3 {
+				return false
+			}
+			n := len(src.wire)
+			buf := make([]byte, 2*n+48)
+			copy(buf, src.wire)
+			copy(buf[n:], src.wire)
+			f, err := c.b.ParseFrame(buf[:n], nil, 0)
+			if err != nil {
+				c.bad("parse-failed", fmt.Sprintf("parse of a live frame's bytes from a caller-owned buffer failed: %v", err))
+				return false
+			}
+			if f.RecvLink() != nil {
+				c.bad("stale-recvlink-parse", "parsed frame exposes the recv link of a previously released frame")
+				f.SetRecvLink(nil)
+			}
+			c.plain = append(c.plain, plainBuf{buf, append([]byte(nil), buf...)})
+			c.lives = append(c.lives, &live{f: f, wire: append([]byte(nil), src.wire...), src: src.src, dst: src.dst, mt: src.mt, swL: src.swL, msgL: src.msgL, apxL: src.apxL, unpooled: true})
+			return true
+		}
 		// the way the link reader does it: pooled slice, frame at FrameOffset
 		// (encrypted link) or at offset 2 (handshake phase, arg 2).
 		poff := off
@@ -299,7 +348,7 @@ func (c *ctx) apply(o op) (ok bool) {
 		return true
 
 	case kReply:
-		if o.i >= len(c.lives) {
+		if o.i >= len(c.lives) || c.lives[o.i].unpooled {
 			return false
 		}
 		l := c.lives[o.i]
@@ -342,7 +391,7 @@ func (c *ctx) apply(o op) (ok bool) {
 		return true
 
 	case kSetApx:
-		if o.i >= len(c.lives) {
+		if o.i >= len(c.lives) || c.lives[o.i].unpooled {
 			return false
 		}
 		l := c.lives[o.i]
@@ -369,7 +418,7 @@ func (c *ctx) apply(o op) (ok bool) {
 		return true
 
 	case kMutate:
-		if o.i >= len(c.lives) {
+		if o.i >= len(c.lives) || c.lives[o.i].unpooled {
 			return false
 		}
 		l := c.lives[o.i]
@@ -411,7 +460,7 @@ func (c *ctx) apply(o op) (ok bool) {
 func TestC17(t *testing.T) {
 	env := kit.GetEnv()
 	rep := kit.NewReport("C17", env)
-	rep.Rule = "all operation sequences up to depth D over {new(6-12 sizes around every pooled tier), parse(i), clone(i), reply/replyTo(i) and a refused oversize reply(i), set-appendix(i, 6-10 lengths incl. 0, tier-crossing, 10000, 10001), mutate(i), set-link(i,2 links), release(i)} with <= 3 live frames on one shared real builder; after every op every live frame is compared byte-for-byte and field-for-field with the shadow model; plus frames produced by the real reader of an established encrypted link (9 message sizes across the tiers x 2 types x appendix 0/40 x 4 growth steps) under 7 short sequences of {clone, grow appendix in place, grow the clone's appendix, release the original and reuse its buffer}; non-trivial = the sequence contains a release followed by a new/parse/clone (buffer reuse) or a clone followed by a modification; distinct = distinct op sequence"
+	rep.Rule = "all operation sequences up to depth D over {new(6-12 sizes around every pooled tier), parse(i) (from a pooled slice at the link offset or the handshake offset; the bytes of live frame 0 also from a CALLER-OWNED buffer without a pooled slice, which must never change afterwards), clone(i), reply/replyTo(i) and a refused oversize reply(i), set-appendix(i, 6-10 lengths incl. 0, tier-crossing, 10000, 10001), mutate(i), set-link(i,2 links), release(i)} with <= 3 live frames on one shared real builder; after every op every live frame is compared byte-for-byte and field-for-field with the shadow model; plus frames produced by the real reader of an established encrypted link (9 message sizes across the tiers x 2 types x appendix 0/40 x 4 growth steps) under 7 short sequences of {clone, grow appendix in place, grow the clone's appendix, release the original and reuse its buffer}; non-trivial = the sequence contains a release followed by a new/parse/clone (buffer reuse) or a clone followed by a modification; distinct = distinct op sequence"
 	rep.Assumptions = []string{
 		"sync.Pool reuse is made deterministic by GOMAXPROCS(1) and GC off; a gate at start verifies that a released frame object and slice are actually handed out again",
 		"frames are parsed the way the link reader parses them (pooled slice, frame at the link offset)",
@@ -460,7 +509,7 @@ func TestC17(t *testing.T) {
 		for _, s := range sizes {
 			alphabet = append(alphabet, op{kNew, 0, s})
 		}
-		alphabet = append(alphabet, op{kParse, 0, 1}, op{kParseBad, 0, 0}, op{kParseBad, 0, 1}, op{kParseBad, 0, 2})
+		alphabet = append(alphabet, op{kParse, 0, 1}, op{kParse, 0, 3}, op{kParseBad, 0, 0}, op{kParseBad, 0, 1}, op{kParseBad, 0, 2})
 		for i := 0; i < 3; i++ {
 			alphabet = append(alphabet, op{kParse, i, 2})
 		}
